@@ -37,6 +37,7 @@ type vConn struct {
 	// release[i] = {after, upto}: script bytes up to `upto` become readable once the client wrote `after` bytes
 	gateAfter int // client bytes that must be written before script[gateFrom:] is readable
 	gateFrom  int
+	gates     [][2]int // {after, from}: script[from:] is readable only once the client wrote `after` bytes
 	cutAt     int // -1: never; otherwise the stream ends (EOF) after cutAt bytes
 	maxIdle   int // read timeouts delivered when nothing more arrives, then EOF
 
@@ -59,6 +60,11 @@ func (c *vConn) readable() int {
 	lim := len(c.script)
 	if len(c.out) < c.gateAfter && c.gateFrom < lim {
 		lim = c.gateFrom
+	}
+	for _, g := range c.gates {
+		if len(c.out) < g[0] && g[1] < lim {
+			lim = g[1]
+		}
 	}
 	if c.cutAt >= 0 && c.cutAt < lim {
 		lim = c.cutAt
@@ -121,7 +127,7 @@ func (c *vConn) Close() error {
 	return nil
 }
 
-func (c *vConn) LocalAddr() net.Addr  { return vAddr{} }
+func (c *vConn) LocalAddr() net.Addr  { verifYield(); return vAddr{} }
 func (c *vConn) RemoteAddr() net.Addr { return vAddr{} }
 func (c *vConn) SetDeadline(t time.Time) error {
 	return nil
